@@ -406,3 +406,33 @@ def lean_lemmas(ctx):
 def matrix_thermal(ctx):
     from contracts.C01 import thermal_matrix
     thermal_matrix(ctx)
+
+
+@unit("C10", "check_infeed_number", functions=["pandapipes.pf.pipeflow_setup:check_infeed_number"], engine="E3")
+def check_infeed_number_unit(ctx):
+    """the guard in front of the thermal solve: it returns True only if the number of nodes marked as infeed equals the
+    number of temperature-fixed nodes (the precondition under which the infeed rows of the thermal matrix pair the k-th
+    infeed node with the k-th fixed node, unit matrix/thermal); INFEED is rewritten only in the all-nodes-fixed case, to 1
+    on every fixed node"""
+    ctx.assume("A1", "A4", "A6", "A7")
+    PS_ = "pandapipes.pf.pipeflow_setup"
+    N_T, N_NTT, N_INF = K.const(ND, "T"), K.const(ND, "NODE_TYPE_T"), K.const(ND, "INFEED")
+    NN_ = z3.Int("NN")
+    paths = T.run_paths(ctx, PS_ + ":check_infeed_number", lambda: ([K.sym_pit("node_pit", NN_, NCN, int_cols=(N_NTT,))], {}))
+    ok = len(paths) >= 2 and all(p.exc is None for p in paths)
+    ctx.decided("paths", "cover", ok, witness=str([str(p.exc) for p in paths]))
+    if not ok:
+        return
+    np0 = K.sym_pit("node_pit", NN_, NCN, int_cols=(N_NTT,))
+    n = z3.Int("n!node")
+    fixed = lambda q: V.I(np0.f(q, N_NTT)) == N_T
+    rets = set(str(p.result) for p in paths)
+    ctx.decided("returns-a-boolean-on-every-path", "ensures", rets <= {"True", "False"} and len(rets) == 2, witness=str(rets))
+    for kx, p in enumerate(paths):
+        npit = p.args[0][0]
+        a = [NN_ >= 1, n >= 0, n < NN_, p.cond()] + list(p.facts)
+        ctx.ob("fixed-node-types-untouched#%d" % kx, "frame", a, K.eq_val(npit.f(n, N_NTT), np0.f(n, N_NTT)))
+        ctx.ob("infeed-flag-only-ever-set-on-fixed-nodes#%d" % kx, "frame", a + [z3.Not(fixed(n))],
+               K.eq_val(npit.f(n, N_INF), np0.f(n, N_INF)))
+        ctx.ob("infeed-flag-of-a-fixed-node-kept-or-set#%d" % kx, "ensures", a + [fixed(n)],
+               z3.Or(K.eq_val(npit.f(n, N_INF), np0.f(n, N_INF)), K.eq_val(npit.f(n, N_INF), 1)))
